@@ -50,15 +50,26 @@ MinimumT(n) == (n \div 2) + 1
 (* Value sets (the presence/absence lattice x statuses)                      *)
 
 Bit == {0, 1}
+\* node / participant addresses (host:port strings; every codec must hand back the string it was
+\* given): a host name, an IPv4 literal, bracketed IPv6 literals (plain, loopback with a short
+\* port, with a zone), a host name with a trailing dot, in upper case, port 0, a port with
+\* leading zeros.  The whole structural lattice is explored with "host"; every other kind with
+\* representative structures.
+AddrKinds == {"host", "ipv4", "ipv6", "ipv6loop", "ipv6zone", "dot", "upper", "port0", "lead0"}
+OtherAddrs == AddrKinds \ {"host"}
 Groups == [type : {"group"}, n : 1..MaxNodes, thr : {"min", "max"}, transition : Bit, seed : {"none", "S"},
-           catchup : Bit, dist : Bit, id : {"", "default", "a"}, sig : Bit]
-Pairs == [type : {"pair"}, sig : Bit]
-Identities == [type : {"identity"}, sig : Bit]
+           catchup : Bit, dist : Bit, id : {"", "default", "a"}, sig : Bit, addr : {"host"}]
+          \cup [type : {"group"}, n : 1..MaxNodes, thr : {"min"}, transition : {1}, seed : {"S"},
+                catchup : {1}, dist : {1}, id : {"a"}, sig : {1}, addr : OtherAddrs]
+Pairs == [type : {"pair"}, sig : Bit, addr : AddrKinds]
+Identities == [type : {"identity"}, sig : Bit, addr : AddrKinds]
 Shares == [type : {"share"}, commits : 1..MaxNodes, index : 0..(MaxNodes - 1)]
 Infos == [type : {"info"}, id : {"", "default", "a"}, seed : {"S", "L"}]
 Statuses == 0..11    \* Fresh .. Failed (internal/dkg/state_machine.go)
 DBStates == [type : {"dbstate"}, status : Statuses, leader : Bit, remaining : Bit, joining : Bit, leaving : Bit,
-             acceptors : Bit, rejectors : Bit, seed : Bit, fgroup : Bit, share : Bit, timeout : Bit]
+             acceptors : Bit, rejectors : Bit, seed : Bit, fgroup : Bit, share : Bit, timeout : Bit, addr : {"host"}]
+            \cup [type : {"dbstate"}, status : {1, 7}, leader : {1}, remaining : {1}, joining : {1}, leaving : {1},
+                  acceptors : {1}, rejectors : {1}, seed : {1}, fgroup : Bit, share : {1}, timeout : {1}, addr : OtherAddrs]
 Beacons == [type : {"beacon"}, prev : {"absent", "empty", "present"}, sig : {"short", "g1", "g2", "zeros"},
             round : {"zero", "one", "max"}]
 \* malformed group encodings
@@ -86,9 +97,9 @@ NoValue == [type |-> "none"]
 StorePaths == {"file", "boltcur", "boltfin"}
 Largest(t) ==
   CASE t = "group" -> [type |-> "group", n |-> MaxNodes, thr |-> "max", transition |-> 1, seed |-> "S",
-                       catchup |-> 1, dist |-> 1, id |-> "default", sig |-> 1]
+                       catchup |-> 1, dist |-> 1, id |-> "default", sig |-> 1, addr |-> "host"]
     [] t = "dbstate" -> [type |-> "dbstate", status |-> 7, leader |-> 1, remaining |-> 1, joining |-> 1, leaving |-> 1,
-                         acceptors |-> 1, rejectors |-> 1, seed |-> 1, fgroup |-> 1, share |-> 1, timeout |-> 1]
+                         acceptors |-> 1, rejectors |-> 1, seed |-> 1, fgroup |-> 1, share |-> 1, timeout |-> 1, addr |-> "host"]
 Overs(t) == CASE t = "share" -> Shares [] t = "pair" -> Pairs
               [] t = "group" -> {Largest("group")} [] t = "dbstate" -> {Largest("dbstate")}
               [] OTHER -> {}
